@@ -125,7 +125,7 @@ class CharacterClass(MutableSet[int]):
         obj = CharacterClass(xsd_version=self.xsd_version)
         obj.positive.update(self.positive)
         obj.negative.update(self.negative)
-        return self
+        return obj
 
     def __contains__(self, item: object) -> bool:
         if isinstance(item, str):
